@@ -4,6 +4,7 @@ from packaging import version
 from visions.backends.numpy import test_utils
 from visions.backends.numpy.array_utils import array_not_empty
 from visions.backends.numpy.types.float import string_is_float
+from visions.backends.shared.nan_handling import nan_mask
 from visions.types.complex import Complex
 from visions.types.string import String
 
@@ -30,7 +31,7 @@ def string_is_complex(array: np.ndarray, state: dict) -> bool:
     return (
         coerced_array is not None
         and not string_is_float(array, state)
-        and imaginary_in_string(array)
+        and imaginary_in_string(array[nan_mask(array)])
     )
 
 
